@@ -10,7 +10,7 @@ use crate::env::*;
 use crate::trace::*;
 use quick_xml::events::Event;
 use quick_xml::name::QName;
-use quick_xml::reader::Reader;
+use quick_xml::reader::{NsReader, Reader};
 use serde_json::{json, Value};
 
 const TOKENS: [&[u8]; 11] = [
@@ -123,7 +123,7 @@ fn name_of(n: u8) -> [u8; 1] {
 }
 
 /// Fresh reader, advance to the Start event that ends at `start_end`, run `op`, read the rest.
-fn run_op(input: &[u8], cfg: u8, start_end: u64, name: u8, op: Op) -> Result<Out, String> {
+fn run_op(input: &[u8], cfg: u8, start_end: u64, name: u8, op: Op, ns: bool) -> Result<Out, String> {
     let nm = name_of(name);
     let r = guarded_mut(|| -> Out {
         let mut out = Out { result: Err("not run".into()), text: None, cfg_before: 0, cfg_after: 0, rest: Vec::new(), found: false, fill_calls: 0 };
@@ -143,9 +143,11 @@ fn run_op(input: &[u8], cfg: u8, start_end: u64, name: u8, op: Op) -> Result<Out
                 }
             }};
         }
+        macro_rules! arms {
+            ($ctor:path) => {
         match op {
             Op::ReadToEnd | Op::ReadText => {
-                let mut reader = Reader::from_reader(input);
+                let mut reader = $ctor(input);
                 apply_cfg(reader.config_mut(), cfg);
                 for _ in 0..cap {
                     match reader.read_event() {
@@ -187,7 +189,7 @@ fn run_op(input: &[u8], cfg: u8, start_end: u64, name: u8, op: Op) -> Result<Out
                     }
                     _ => unreachable!(),
                 };
-                let mut reader = Reader::from_reader(Source::new(input, &script));
+                let mut reader = $ctor(Source::new(input, &script));
                 apply_cfg(reader.config_mut(), cfg);
                 let mut buf = Vec::new();
                 for _ in 0..cap {
@@ -217,7 +219,7 @@ fn run_op(input: &[u8], cfg: u8, start_end: u64, name: u8, op: Op) -> Result<Out
                     script.faults.push((p, Fault::Pending));
                 }
                 let horizon = input.len() + 16;
-                let mut reader = Reader::from_reader(Source::new(input, &script));
+                let mut reader = $ctor(Source::new(input, &script));
                 apply_cfg(reader.config_mut(), cfg);
                 let mut buf = Vec::new();
                 for _ in 0..cap {
@@ -245,6 +247,13 @@ fn run_op(input: &[u8], cfg: u8, start_end: u64, name: u8, op: Op) -> Result<Out
                 out.fill_calls = reader.get_ref().calls;
             }
         }
+            };
+        }
+        if ns {
+            arms!(NsReader::from_reader);
+        } else {
+            arms!(Reader::from_reader);
+        }
         out
     });
     r.map_err(|p| format!("panic: {}", p))
@@ -259,12 +268,17 @@ struct Expect {
 }
 
 fn check(doc: &Doc, input: &[u8], cfg: u8, i: usize, op: Op, exp: &Expect, uninterrupted: &[Obs]) -> Result<bool, String> {
+    check_ns(doc, input, cfg, i, op, exp, uninterrupted, false)
+}
+
+/// `ns`: the same call on an NsReader (its skipping methods wrap the plain reader's and must report the same span)
+fn check_ns(doc: &Doc, input: &[u8], cfg: u8, i: usize, op: Op, exp: &Expect, uninterrupted: &[Obs], ns: bool) -> Result<bool, String> {
     let name = match tk(doc.toks[i] as usize) {
         TK::Start(n) | TK::Empty(n) => n,
         _ => unreachable!(),
     };
     let start_end = doc.off[i + 1] as u64;
-    let out = run_op(input, cfg, start_end, name, op)?;
+    let out = run_op(input, cfg, start_end, name, op, ns)?;
     if !out.found {
         return Ok(false);
     }
@@ -329,7 +343,7 @@ pub fn run(ctx: &Ctx) {
          well-formed by the token-level tag stack, plus every truncation of it at every byte; for EVERY start tag (and every empty \
          tag when expansion is on) the reader is advanced to that Start event, then each of read_to_end, read_text (slice), \
          read_to_end_into (piece sizes 1, 2, whole; also with a user buffer that is never cleared), read_to_end_into_async (piece sizes 1, whole; thorough: every placement of one \
-         Pending) is called, and read_to_end_into with an Interrupted / a hard I/O error at every refill index of the complete documents, under the 32 combinations of check_end_names x trim_text_start x trim_text_end x expand_empty_elements x \
+         Pending) is called (and the same five calls on an NsReader), and read_to_end_into with an Interrupted / a hard I/O error at every refill index of the complete documents, under the 32 combinations of check_end_names x trim_text_start x trim_text_end x expand_empty_elements x \
          trim_markup_names_in_closing_tags. Oracle from the token structure: span == (end of start tag, '<' of the matching end tag) \
          (empty for an expanded empty element); read_text == input[span]; all following events and positions equal those of an \
          uninterrupted run after that end tag; Config identical before and after, on success and on error; unclosed => Err. \
@@ -414,6 +428,23 @@ pub fn run(ctx: &Ctx) {
                                     ops.push(Op::IntoFault(2, p, false));
                                     ops.push(Op::IntoFault(2, p, true));
                                 }
+                            }
+                        }
+                        // the NsReader's skipping methods: same spans, same following events
+                        for op in [Op::ReadToEnd, Op::ReadText, Op::Into(1), Op::Into(0), Op::Async(1, None)] {
+                            acc.evaluations += 1;
+                            acc.transitions += 1;
+                            match check_ns(&doc, input, cfg, i, op, &exp, &uninterrupted, true) {
+                                Ok(true) => {
+                                    acc.traces += 1;
+                                    acc.count("ns_reader_calls", 1);
+                                }
+                                Ok(false) => acc.count("start_not_reached", 1),
+                                Err(what) => acc.violation(
+                                    (0, idx),
+                                    format!("document {:?} cfg [{}], start tag #{} ({:?}), NsReader {:?}: {}", lossy(input), cfg_show(cfg), i, lossy(TOKENS[toks[i] as usize]), op, what),
+                                    json!({"tokens": toks, "len": len, "cfg": cfg, "start_token": i, "op": format!("{:?}", op), "ns": true}),
+                                ),
                             }
                         }
                         for op in ops {
@@ -834,5 +865,5 @@ pub fn replay(case: &Value) -> Result<(), String> {
         }
     };
     println!("expected span: {:?}", exp.span);
-    check(&doc, input, cfg, i, op, &exp, &uninterrupted).map(|_| ())
+    check_ns(&doc, input, cfg, i, op, &exp, &uninterrupted, case.get("ns").and_then(|n| n.as_bool()).unwrap_or(false)).map(|_| ())
 }
